@@ -192,7 +192,7 @@ func dischargeAll(results []*FuncResult, dir string, timeoutMs int, all bool, wo
 					file := filepath.Join(dir, sanitize(j.ob.Name)+".smt2")
 					os.WriteFile(file, []byte(q), 0o644)
 					j.ob.Query = file
-					r := runSolver(solvers[0], file, 3000)
+					r := runSolver(solvers[0], file, 1500)
 					j.ob.Verdict, j.ob.Millis = r.verdict, r.millis
 					j.ob.Solver = fmt.Sprintf("%s=%s(%dms)", r.solver, r.verdict, r.millis)
 					continue
